@@ -195,6 +195,12 @@ func (p *calcParser) _recover() bool {
 		for len(p._stack) >= 1 {
 			state := p._stack.Peek(0).State
 
+			// Simulate the reductions the parser will make on ERROR before it can
+			// shift it. sim holds the states those reductions push; popped counts
+			// the entries of the real stack they consume.
+			var sim []int32
+			popped := 0
+
 			for {
 				action, ok := _Find(_actions, state, int32(ERROR))
 				if !ok {
@@ -204,7 +210,25 @@ func (p *calcParser) _recover() bool {
 				if action < 0 {
 					prod := -action
 					rule := _rules[int(prod)]
-					state, _ = _Find(_goto, state, rule)
+					for n := int(_termCounts[int(prod)]); n > 0; n-- {
+						if len(sim) > 0 {
+							sim = sim[:len(sim)-1]
+						} else {
+							popped++
+						}
+					}
+					if len(sim) > 0 {
+						state = sim[len(sim)-1]
+					} else if popped < len(p._stack) {
+						state = p._stack.Peek(popped).State
+					} else {
+						break
+					}
+					state, ok = _Find(_goto, state, rule)
+					if !ok {
+						break
+					}
+					sim = append(sim, state)
 					continue
 				}
 
